@@ -6,3 +6,9 @@ pub mod types;
 
 #[cfg(feature = "server")]
 pub use brc20_prog_database::Brc20ProgDatabase;
+
+#[cfg(all(brc20_prog_verif, feature = "server"))]
+pub mod verif_db {
+    pub use super::cached_database::{BlockCachedDatabase, BlockHistoryCache, BlockHistoryCacheData};
+    pub use super::database::BlockDatabase;
+}
